@@ -111,12 +111,22 @@ def context_cases(jobs):
 # Table-level replay of TLC behaviours (spec -> code): MultiTypeMap driven
 # directly, projection compared after every step.
 # ---------------------------------------------------------------------------
-def _mk_classes(par):
+def _mk_classes(par, metas=None):
+    """metas: {class id (str): metaclass name}: that class is created with a metaclass of its own (inherited by subclasses)"""
     classes = [None, object]
+    mcs = {}
     for c in range(2, len(par) + 1):
         ps = sorted([p for p in par[c - 1] if p != 1], reverse=True)
         bases = tuple(classes[p] for p in ps) or (object,)
-        classes.append(type(f"K{c}", bases, {"__module__": "vfworld"}))
+        name = (metas or {}).get(str(c))
+        if name:
+            mcs[name] = mcs.get(name) or type(name, (type,), {"__module__": "vfworld"})
+            classes.append(mcs[name](f"K{c}", bases, {"__module__": "vfworld"}))
+        else:
+            classes.append(type(bases[0])(f"K{c}", bases, {"__module__": "vfworld"}) if type(bases[0]) is not type and len(bases) == 1 and bases[0] is not object
+                           else type(f"K{c}", bases, {"__module__": "vfworld"}))
+    classes_meta = mcs
+    _mk_classes.last_metas = classes_meta
     return classes
 
 
@@ -1304,7 +1314,8 @@ def typearg_cases(jobs):
     out = []
     for job in jobs:
         w = job["world"]
-        base = _mk_classes(w["elbase"])
+        base = _mk_classes(w["elbase"], w.get("elmeta"))
+        metas_ = dict(_mk_classes.last_metas)
         builtin = w.get("elbuiltin", {})
         for k, name in builtin.items():
             import collections.abc
@@ -1326,6 +1337,8 @@ def typearg_cases(jobs):
                 return base[e["o"]][tuple(real(a) for a in e["args"])]
             if e["k"] == "inst":
                 return base[e["c"]]
+            if e["k"] == "metaof":
+                return metas_[e["m"]]
             raise ValueError(e)
 
         from ovld import call_next as _call_next
@@ -1351,8 +1364,8 @@ def typearg_cases(jobs):
                 n = t["c"]
                 if n == 1:
                     ann = "object"
-                elif els[n - 1]["k"] == "inst":
-                    ann = f"E{n}"
+                elif els[n - 1]["k"] in ("inst", "metaof"):
+                    ann = f"E{n}"            # an ordinary class annotation (a metaclass: the passed class is its instance)
                 elif m.get("bare") and els[n - 1] == {"k": "cls", "c": 1}:
                     ann = "type"
                 elif m.get("anyspell") and els[n - 1]["k"] in ("cls", "gen"):
@@ -1367,7 +1380,7 @@ def typearg_cases(jobs):
                 params.append("*")
             for kn, t, req in zip(m["kwn"], m["kwt"], m["kwreq"]):
                 n = t["c"]
-                ann = "object" if n == 1 else (f"E{n}" if els[n - 1]["k"] == "inst" else f"type[E{n}]")
+                ann = "object" if n == 1 else (f"E{n}" if els[n - 1]["k"] in ("inst", "metaof") else f"type[E{n}]")
                 params.append(f"{kn}: {ann}" + ("" if req else " = None"))
             fwd = ", ".join([f"p{i + 1}" for i in range(len(m["pos"]))] + [f"{kn}={kn}" for kn in m["kwn"]])
             body = m.get("body", "leaf")
